@@ -58,7 +58,7 @@ def _min(a, b):
 class Fresh:
     def __init__(self, model, oracle=None):
         self.model = model
-        self.eff = receiver_effects(model)
+        self.eff = {k: {a.rstrip('*') for a in v} for k, v in receiver_effects(model).items()}
         self.oracle = oracle
         self.value_attrs = set()
         for c in VALUE_CLASSES:
@@ -266,6 +266,7 @@ class Fresh:
                 continue        # base-class constructor running on the object under construction
             wr = self.receiver_writes(call, ff)
             if wr:
+                wr = {a.rstrip('*') for a in wr}
                 if 'array' in wr or 'plate' in wr or wr == {'wells'}:
                     cls, why = self.plate_class(recv, before, ff)
                     text = f"{show(recv, 60)}.{f.attr}() writes {show(recv, 40)}.plate.wells"
